@@ -72,7 +72,11 @@ CFG = {
         "few instructions is hit is a matter of chance: about 1 in 100 bursts on this machine); a third of the interface-keyed universes (KeyLocker and both KeyLockerGrp routings) hold ONE numeric value under several "
         "dynamic types (intN/uintN of one width always together; int, uint, uintptr, float32/64, string, named ints, a struct, an "
         "array, bool for the single locker; only the kinds remap.ToBytes can route for the groups): distinct keys that must not "
-        "block each other and have entries/counts of their own; first-touch schedules are sent as compact pieces (cut where the "
+        "block each other and have entries/counts of their own; plus the class edge-int-keys (25 per quick run, after every other class): "
+        "ordered schedules on the lockers that route integers by value (both generic groups, both interface-keyed groups, the single "
+        "generic locker; 2/3/73/251 shards) over 3-5 integer keys drawn from -1, -2, -3, -n, -n+-1, MinInt64(+1), MaxInt64(-1), "
+        "MinInt32(-1), MaxInt32+1, MaxUint32(+1), -(2^40)-7, 2^62+5 and one small key, so that every site computing a shard (single-key "
+        "path, sorting of a multi-key list, unlock path) must agree on the signed->uint64 conversion; first-touch schedules are sent as compact pieces (cut where the "
         "locker is empty, keys renumbered per piece); a case is non-trivial when it has at least 6 rounds and at some quiescent point a live "
         "caller was blocked (had not returned); distinct = distinct Coq case term (actions + observations + labels)"
     ),
